@@ -1,9 +1,53 @@
 import HedVerif.Driver.Util
+import HedVerif.Model.Issue
+import HedVerif.Generated.C12Sort
 open Lean
 namespace HedVerif.Driver.C12
-open HedVerif HedVerif.Driver
+open HedVerif HedVerif.Driver HedVerif.Issue
 
-/-- requests `{"op":"c12.<name>", ...}` of property C12 (stub: none yet) -/
-def handle (_op : String) (_j : Json) : Option (Except String Json) := none
+def optNat (j : Json) (k : String) : Option Nat :=
+  match j.getObjVal? k with
+  | .ok v => match v.getNat? with | .ok n => some n | .error _ => none
+  | .error _ => none
+
+def issueOf (j : Json) : Except String Issue := do
+  let sev ← getNat j "severity"
+  let span := match j.getObjVal? "span" with
+    | .ok (Json.arr #[a, b]) => match a.getNat?, b.getNat? with
+      | .ok x, .ok y => some (x, y)
+      | _, _ => none
+    | _ => none
+  let ctx : List (Str × Val) := match j.getObjVal? "ctx" with
+    | .ok (Json.obj kvs) => kvs.toList.map fun (k, v) =>
+        (k.toList, match v with
+          | Json.str s => Val.str s.toList
+          | Json.num n => Val.num n.mantissa   -- integers only (exponent 0)
+          | _ => Val.str [])
+    | _ => []
+  pure { code := [], severity := sev, span := span, modified := getBoolD j "modified" false,
+         idx := optNat j "idx", idxEnd := optNat j "idxEnd", ctx := ctx }
+
+def iterN (f : Issue → Issue) : Nat → Issue → Issue
+  | 0, a => a
+  | n + 1, a => iterN f n (f a)
+
+def handle (op : String) (j : Json) : Option (Except String Json) :=
+  match op with
+  | "c12.decorate" => some do
+      let i ← issueOf (← getVal j "issue")
+      let hs ← getBool j "hasString"
+      let n ← getNat j "passes"
+      let d := iterN (updateCharPos hs) n i
+      pure <| jobj [("charIdx", match d.charIdx with | some (a, b) => jarr [jnat a, jnat b] | none => Json.null),
+                    ("suffixes", jnat d.suffixes)]
+  | "c12.sort" => some do
+      let items ← (← getArr j "issues").mapM fun x => do
+        let i ← issueOf x
+        let id ← getNat x "id"
+        pure { i with idx := some id }     -- carry the id in an unused field
+      let sorted := sortBy (keyOf Generated.C12.sortList) items
+      pure <| jobj [("order", jarr (sorted.map fun i => jnat (i.idx.getD 0)))]
+  | "c12.sortlist" => some (pure <| jarr (Generated.C12.sortList.map fun (n, b) => jarr [jstr n, jbool b]))
+  | _ => none
 
 end HedVerif.Driver.C12
